@@ -200,6 +200,10 @@ def correction_events(darsia, rng, work, reps):
             return ic
         cands.append(("IlluminationCorrection", illum, probe))
         cands.append(("ColorCorrection", lambda: darsia.ColorCorrection(config={"active": False, "roi": [[0, 0], [H - 1, 0], [H - 1, W - 1], [0, W - 1]], "whitebalancing": rng.random() < 0.5}), probe))
+        def relcol():
+            rc = darsia.RelativeColorCorrection(baseline=darsia.OpticalImage(rs.rand(H, W, 3), color_space="RGB", dimensions=[1.0, 1.0]))
+            return rc
+        cands.append(("RelativeColorCorrection", relcol, probe))
         for name, make, inp in cands:
             e = {"tid": f"corr:{name}:{rep}:{len(ev)}", "op": "correction", "cls": name, "rcls": "", "raised": 0, "same_output": 0, "state_diff": []}
             try:
